@@ -1,6 +1,7 @@
 package harness
 
 import (
+	"github.com/element-of-surprise/coercion/workflow/storage"
 	"github.com/google/uuid"
 	"zombiezen.com/go/sqlite"
 )
@@ -8,3 +9,5 @@ import (
 type uuidT = uuid.UUID
 
 type sqliteStmt = sqlite.Stmt
+
+type storageStream = storage.Stream[storage.ListResult]
